@@ -19,6 +19,8 @@ func checkC06(c *Ctx) {
 	c.Rule("C06-R3", "Fini only runs finish through sync.Once; finish has no other caller; the quit channel has exactly one closer")
 	c.Rule("C06-R4", "a field tested to make the screen inert is set on the shutdown path (a guard that is never written is dead)")
 	c.Rule("C06-R5", "PollEvent/PostEventWait/ChannelEvents: every blocking operation has a StopQ alternative; PollEvent returns nil on it")
+	c.Rule("C06-R9", "a finished screen stays finished: every close of a quit channel runs at most once (sync.Once, or behind a flag tested and set under the lock), and engage refuses to restart a screen whose fini flag is set")
+	c.Expect("C06-R9", 3)
 	c.Rule("C06-R8", "drawing cannot wedge a suspended screen: draw() returns at once unless the screen is running, and the column loop of every painter advances by at least one per cell (a width below 1, as reported for a cell outside the buffer, is raised to 1)")
 	c.Expect("C06-R8", 2)
 	c.Rule("C06-R7", "what the API methods dereference without a nil test stays in place after Fini: the Tty and Terminfo of a screen are stored (non-nil) by its constructor or Init only")
@@ -54,6 +56,7 @@ func checkC06(c *Ctx) {
 		c06Poll(c, p, "C06-R5")
 		c06Reengage(c, p)
 		c06DrawProgress(c, p)
+		c06FinishedStays(c, p)
 		for _, f := range []string{"tty", "ti"} {
 			ws := []string{}
 			for _, fn := range p.modFns {
@@ -607,4 +610,89 @@ func c06DrawProgress(c *Ctx, p *Prog) {
 		}
 	}
 	c.Check(okStep, "C06-R8", "draw:column-loop-advances", p.pos(draw.Pos()), detail)
+}
+
+// c06FinishedStays: a second Fini must be a no-op (closing a closed channel
+// panics), and nothing may bring a finished screen back to life.
+func c06FinishedStays(c *Ctx, p *Prog) {
+	// every close(x.quit) in the package
+	for _, g := range p.modFns {
+		if g.Pkg != p.Tcell {
+			continue
+		}
+		eachInstr(g, func(in ssa.Instruction) {
+			cl, ok := in.(*ssa.Call)
+			if !ok {
+				return
+			}
+			b, ok := cl.Call.Value.(*ssa.Builtin)
+			if !ok || b.Name() != "close" {
+				return
+			}
+			cn := chanName(cl.Call.Args[0], nil, 0)
+			if !strings.HasSuffix(cn, ".quit") {
+				return
+			}
+			key := "close(" + strings.TrimPrefix(cn, "tcell.") + "):once"
+			// (a) inside a function that only runs through sync.Once
+			top := topFunc(g)
+			once := false
+			for _, h := range p.modFns {
+				if h.Pkg != p.Tcell {
+					continue
+				}
+				eachInstr(h, func(in2 ssa.Instruction) {
+					cc := callCommon(in2)
+					if cc != nil && calleeName(cc) == "(*sync.Once).Do" && len(cc.Args) == 2 {
+						if t := boundTarget(cc.Args[1]); t == g || t == top {
+							once = true
+						}
+					}
+				})
+			}
+			// (b) behind a flag of the same struct that was loaded before it is set true in this function
+			flag := false
+			for _, gd := range rawGuardsAt(in.Block()) {
+				var ld *ssa.UnOp
+				pos := gd.Positive
+				switch x := gd.Cond.(type) {
+				case *ssa.UnOp:
+					if x.Op == token.NOT {
+						if l, ok := x.X.(*ssa.UnOp); ok {
+							ld, pos = l, !pos
+						}
+					} else if x.Op == token.MUL {
+						ld = x
+					}
+				}
+				if ld == nil || pos {
+					continue // need: flag was false
+				}
+				if ref, _, ok := fieldAddrRef(ld.X); ok {
+					for _, st := range storesTo(g, ref.Owner, ref.Name) {
+						if v, isB := constBool(st.Val); isB && v && instrDominates(ld, st) {
+							flag = true
+						}
+					}
+				}
+			}
+			c.Check(once || flag, "C06-R9", key, p.pos(in.Pos()), fmt.Sprintf("runs at most once: through sync.Once %v, or behind a test-and-set flag %v", once, flag))
+		})
+	}
+	// engage refuses after Fini
+	if eng := p.Fn("tcell:(*tScreen).engage"); eng != nil {
+		ok := false
+		for _, call := range callsIn(eng, func(n string, cc *ssa.CallCommon) bool {
+			return cc.IsInvoke() && typeName(cc.Value.Type()) == "tcell.Tty" && cc.Method.Name() == "Start"
+		}) {
+			for _, a := range guardsAt(call.Block()) {
+				if a.L == "t.fini" && ((a.Op == "==" && a.R == "false") || (a.Op == "!=" && a.R == "true")) {
+					ok = true
+				}
+			}
+		}
+		c.Check(ok, "C06-R9", "engage:refuses-after-Fini", p.pos(eng.Pos()), "Tty.Start is reached only with t.fini false (Resume after Fini must not re-enter the terminal)")
+	} else {
+		c.Undecided("C06-R9", "engage", "-", "not found")
+	}
 }
